@@ -42,7 +42,7 @@ pub fn run(args: &Args, sink: &mut Sink, rt: &tokio::runtime::Runtime) {
         if total == 0 {
             continue;
         }
-        let version = *rng.pick(&[LanceFileVersion::Legacy, LanceFileVersion::V2_0, LanceFileVersion::V2_1]);
+        let version = *rng.pick(&[LanceFileVersion::Legacy, LanceFileVersion::Legacy, LanceFileVersion::V2_0, LanceFileVersion::V2_1]);
         let m = rng.range(1, 50) as usize; // max_rows_per_file
         let g = rng.range(1, 20) as usize; // max_rows_per_group (legacy only)
         let uri = dir.path().join(format!("t{ci}")).to_string_lossy().to_string();
@@ -53,7 +53,9 @@ pub fn run(args: &Args, sink: &mut Sink, rt: &tokio::runtime::Runtime) {
             let ds = Dataset::write(reader, &uri, Some(params)).await.map_err(|e| format!("write failed: {e}"))?;
             // ---- fragment sizes: exact cut
             let frags: Vec<usize> = ds.fragments().iter().map(|f| f.physical_rows.unwrap_or(0)).collect();
-            let per = if version == LanceFileVersion::Legacy { m.div_ceil(g) * g } else { m };
+            // legacy: groups of min(g, m) rows (write.rs clamps max_rows_per_group to max_rows_per_file), a file is
+            // closed once it holds >= m rows; 2.x: break_stream cuts exactly at m
+            let per = if version == LanceFileVersion::Legacy { let g1 = g.min(m); m.div_ceil(g1) * g1 } else { m };
             let mut expect = vec![per; total / per];
             if total % per != 0 {
                 expect.push(total % per);
